@@ -135,6 +135,14 @@ def sha_rule(ctx, facts, rule="SHASEED"):
         fn = facts.fn(fid)
         t = tree_of(fn)
         ups = [x for x in user_nodes(fn) if x["k"] == "MethodCall" and x["name"] in ("update", "chain_update", "update_with") and "sha2" in (x.get("recv_ty", "") + x.get("callee", "") + x.get("resolved", ""))]
+        # one-shot form: `Sha512_256::digest(&key.get_sig())` creates, feeds and finalises a hasher of its own
+        from ..rulelib import resolver_of
+        R_ = resolver_of(fn)
+        shots = [x for x in user_nodes(fn) if x["k"] == "Call" and short(x.get("callee", "") or hirq.show(x["f"])) == "digest" and len(x["args"]) == 1
+                 and "Digest" in (x.get("callee", "") or hirq.show(x["f"]))]
+        if not ups and len(shots) == 1 and nf.nf(shots[0]["args"][0], res=R_) == "key.get_sig()" and [f for f in for_loops(fn) if t.contains(f["body"], shots[0])]:
+            ctx.ok(rule, fid, "one-shot Sha512_256::digest(&key.get_sig()) per item: a hasher of its own for every key", hirq.loc(shots[0]))
+            continue
         if len(ups) != 1 or nf.nf(ups[0]["args"][0]) not in ("key.get_sig()",):
             ctx.violation(rule, fid, "digest input", hirq.loc(fn), "expected exactly one Sha512_256 update fed with key.get_sig(); found %s" % [nf.nf(u["args"][0])[:40] for u in ups])
             continue
